@@ -116,17 +116,11 @@ def run(ck, facts, tier):
     fb = need_body(ck, facts, R, "chalk_recursive::fulfill::Fulfill::fulfill")
     if fb:
         th = facts.thir("chalk_recursive::fulfill::Fulfill::fulfill")
-        lets = {}
-        for st in walk(th):
-            if st.get("k") == "let" and st.get("init") is not None and st["pat"].get("k") == "bind":
-                lets[st["pat"].get("n")] = st["init"]
+        from kit import FlagFlow
+        flow = FlagFlow(th)
 
-        def resolved_has(cond, fn, depth=3):
-            if has_call(cond, fn):
-                return True
-            if depth == 0:
-                return False
-            return any(v in lets and resolved_has(lets[v], fn, depth - 1) for v in expr_vars(cond))
+        def resolved_has(cond, fn, depth=5):
+            return flow.depends_on_call(cond, fn, depth)
 
         sites = []
 
